@@ -302,7 +302,7 @@ func (c *Ctx) c10Views() {
 	r := c.R
 	c.c10TsInverse()
 	for _, acc := range []string{"TraitEntry.ExpireAt", "TraitEntryOf.ExpireAt", "errExpired.ExpiredAt", "errExpiredOf.ExpiredAt"} {
-		_, paths, _, err := c.runFunc(acc, pw.Policy{})
+		_, paths, _, err := c.runFunc(acc, pw.Policy{Inline: noInline})
 		if err != nil {
 			r.Unknown("R10.5", acc, err.Error())
 			continue
